@@ -1059,7 +1059,8 @@ def arg2config(key: str, cfg_type: type, value: ArgType) -> str:
         logger.error(msg)
         raise ValueError(msg)
 
-    return handlers[cfg_type](value)  # type: ignore
+    # ConfigParser interpolation treats "%" specially; escape it
+    return handlers[cfg_type](value).replace("%", "%%")  # type: ignore
 
 
 def merge_config(
